@@ -8,6 +8,13 @@ Case lines (built by `harness/src/bin/c04.rs`):
 * `C04.clip R3 <type> <A> <LO> <HI>`
 * `C04.comm <op> <pattern> <type> <A> <B>`
 * `C04.seq <case> / <case> / …` (each `<case>` one of the above without the `C04.` prefix)
+* `C04.g <op> <pattern> <type> <shapeA> <shapeB> <fillA> <fillB>` / `C04.g clip R3 <type> <shapeA> <shapeLO> <shapeHI> <fillA> <fillLO> <fillHI>`
+  — giant operands (more than 2^20 result elements), named by shape and a fill rule and built by the harness, never written out.
+  The list-backed model cannot gather a million elements, so the answer is the result SHAPE only (`broadcastShape`, which
+  `zipWithB_spec` / `zipWithR_shape_is_broadcastShape` / `clipLike_spec` prove to be the result shape on zero-free shapes) or the
+  refusal (`divide_refuses_zero`: a fill rule that writes a zero into the divisor; clashing shapes).  The harness compares the
+  values in place with its native coordinate formula, which it compares with the FULL model answer on every other case of the run.
+* `C04.oracle_report [final]` — bookkeeping line of the harness (how often that formula was compared with the model)
 
 Values are opaque tokens for the model (decimal integers, `x<16 hex digits>` for the bits of an f64); the only thing
 the model reads from them is whether a token of the second operand is a zero (`0`, `+0.0`, `-0.0`) — the divisor guard.
@@ -64,6 +71,40 @@ def handle1 (op : String) (args : List String) : Option String :=
     some (showRes showPairs (p.run (fun t => t.2) pairK a b))
   | _, _ => none
 
+/-- does the fill rule of a giant operand write a zero? `c<tok>` constant, `z<k><p|n>` a zero at flat position k, `m<salt>` a
+mixture of +0.0 / -0.0 (integers: zeros); `v<salt>` / `l<tok>` hold no zero -/
+def fillHasZero (f : String) : Bool :=
+  f.startsWith "z" || f.startsWith "m" || (f.startsWith "c" && isZeroTok (f.drop 1).toString)
+
+def showShapeRes (r : Res (List Nat)) (want : Option (List Nat)) : String :=
+  match r with
+  | .ok fs => if want.all (· == fs) then "ok shape " ++ showNatList fs else "err BroadcastShapeMismatch"
+  | .err e => "err " ++ e.name
+  | .panic => "panic"
+
+/-- receiver-shaped family: the argument must stretch to the receiver's shape.  Not answered (`none`) in the equal-count region,
+where `broadcast_to` reshapes instead of stretching — the generator never emits such a giant case. -/
+def stretchTo? (sb sa : List Nat) : Option String :=
+  if sb.prod == sa.prod && sb != sa then none else some (showShapeRes (broadcastShape sb sa) (some sa))
+
+/-- one giant call: result shape or refusal.  Zero-length axes are not answered (never generated at this size). -/
+def handleG (op : String) (args : List String) : Option String :=
+  match op, args with
+  | "clip", [_pat, _ty, a, lo, hi, _fa, _fl, _fh] => do
+    let sa ← parseNatList? a; let sl ← parseNatList? lo; let sh ← parseNatList? hi
+    if (sa ++ sl ++ sh).any (· == 0) then none
+    let rl ← stretchTo? sl sa; let rh ← stretchTo? sh sa
+    some (if rl.startsWith "err" then rl else rh)
+  | _, [pat, _ty, a, b, _fa, fb] => do
+    let p ← Pattern.ofString pat
+    let sa ← parseNatList? a; let sb ← parseNatList? b
+    if (sa ++ sb).any (· == 0) then none
+    match p with
+    | .G | .GM => if fillHasZero fb then some "err ParameterError" else some (showShapeRes (broadcastShape sa sb) none)
+    | .B | .IB => some (showShapeRes (broadcastShape sa sb) none)
+    | .R | .RA => stretchTo? sb sa
+  | _, _ => none
+
 /-- the token list cut at every separator token -/
 def splitTok (sep : String) : List String → List (List String)
   | [] => [[]]
@@ -79,6 +120,8 @@ def handle (op : String) (args : List String) : Option String :=
   | "seq" => do
     let answers ← (splitTok "/" args).mapM (fun p => match p with | o :: as => handle1 o as | [] => none)
     some (" / ".intercalate answers)
+  | "g" => match args with | o :: as => handleG o as | [] => none
+  | "oracle_report" => some "ok report"
   | _ => handle1 op args
 
 end Driver.C04
